@@ -21,7 +21,7 @@ HB_CLIENTS = [
     # components built on other branches: one line each once their client exists, e.g.
     ("hb-lr", "lr", False, 2, 400, 10000),
     ("hb-cow", "cow", True, 2, 400, 10000),     # tap: the plain accesses of m_data's two shared_ptr copies are checked too
-    # ("hb-rcu", "rcu", True, 2, 400, 10000),
+    ("hb-rcu", "rcu", True, 2, 300, 8000),
     ("hb-trigger", "trigger", False, 2, 400, 10000),
     ("hb-dd", "dd", False, 2, 400, 10000),
     ("hb-soh", "soh", True, 2, 400, 10000),
@@ -41,6 +41,7 @@ def hb_events(run):
     evs = []
     started = []
     check_plain = True
+    atomics = set()   # locations already used atomically: the tap's echo of the shim's own storage access is dropped
     n = -1
     for l in run["trace"]:
         t = l.split()
@@ -59,6 +60,11 @@ def hb_events(run):
             started.append(tid)
             evs.append((0, "fork", tid, None, n, l))
         ev = None
+        if k in ("ald", "ast", "axc", "rmw", "cas"):
+            atomics.add(a[0])
+        if k in ("pld", "pst") and a[0] in atomics:
+            evs.append((tid, "nop", None, None, n, l))
+            continue
         if k == "ald":
             ev = ("ld", a[0], a[1])
         elif k == "ast":
